@@ -322,7 +322,9 @@ def run(ctx):
             return False
 
         t_sp = spent("total")
-        key = (br, str(t_sp), str(spent(br)))
+        decs = dict(s.ts.get("dec", ()))
+        has_status = bool(s.facts.get("p:response", (None, None))[0]) and decs.get("response.status") is True
+        key = (br, str(t_sp), str(spent(br)), has_status)
         if key in seen:
             continue
         seen.add(key)
@@ -331,8 +333,7 @@ def run(ctx):
         b_sp = spent(br)
         if br == "status":
             # the status counter is only spent when there is a response with a status
-            st_known = s.facts.get("p:response", (None, None))[0]
-            if not st_known:
+            if not has_status:
                 b_sp = b_sp if b_sp is not False else "n/a"
         ctx.ob(R9, inc.qual, f"branch {br}: its own counter handed to new() is decremented (or None)", b_sp in (True, "none", "n/a"),
                "" if b_sp in (True, "none", "n/a") else f"the `{br}` budget is never spent in its own branch", witness=s.witness(), node=inc.node)
